@@ -622,7 +622,7 @@ LEAF_RET = {
     "tailifelse": "db.On = {t}\nif {t} > 2:\n    return {t} - 1\nelse:\n    return {t} + 1\n",
 }
 LEAF_HASRET = {"end", "early", "multi", "loop", "tailloop", "tailifelse"}
-MID_USE = ["stmt", "assign", "expr", "tailstmt", "retcall", "inloop", "inif", "twice_inside", "early_before", "early_after", "early_between"]
+MID_USE = ["stmt", "assign", "expr", "tailstmt", "retcall", "inloop", "inif", "twice_inside", "early_before", "early_after", "early_between", "ret_ifelse"]
 
 
 def func2(tier="quick"):
@@ -678,6 +678,13 @@ def func2(tier="quick"):
                         else:
                             body = pre + call + "\nif p > 1:\n    return\n" + post
                         mret = has
+                    elif use == "ret_ifelse":
+                        # mid calls the leaf and then returns from the branches of a trailing if / elif / else
+                        if has:
+                            body = pre + f"u = {call}\n" + post + "if u > 12:\n    return u\nelif p == 1:\n    return u + 50\nelse:\n    return u + 100\n"
+                        else:
+                            body = pre + call + "\n" + post + "if p > 1:\n    return 7\nelse:\n    return p + 20\n"
+                        mret = True
                     elif use == "early_between":
                         c2 = f"leaf({', '.join(['1', 'p', '3', 'p', '5'][:ar])})"
                         if has:
@@ -692,7 +699,7 @@ def func2(tier="quick"):
                     mid = fdef("mid", ["p"], body)
                     for leaf_also_main in (False, True):
                         for mid_twice in (False, True):
-                            if tier == "quick" and (n % 3) and not (use in ("tailstmt", "retcall", "early_before", "early_after", "early_between") and not locals_live):
+                            if tier == "quick" and (n % 3) and not (use in ("tailstmt", "retcall", "early_before", "early_after", "early_between", "ret_ifelse") and not locals_live):
                                 n += 1
                                 continue
                             m1 = "db.Setting = mid(d0.Setting)\n" if mret else "mid(d0.Setting)\n"
@@ -1052,6 +1059,15 @@ def names_inline(tier="quick"):
             f"while True:\n    {H}(d0.Setting)\n    {H}(5)\n    db.Setting = 999\n    yield_()\n"
         )
         out.append(mk("NAMESINL", n, src, names=[H, P], V=[0, 1, 3], K=12, T=2, cap=32))
+        n += 1
+        # nested inlining: host and helper are each called once (both inlined when inlining is on); endless and terminating main
+        body = (
+            f"def {P}(k):\n    db.Mode = k\n    if k > 2:\n        return\n    db.Lock = k\n"
+            f"def {H}(a):\n    db.On = a\n    {P}(a)\n    db.Open = a + 100\n"
+        )
+        out.append(mk("NAMESINL", n, body + f"while True:\n    {H}(d0.Setting)\n    db.Setting = 999\n    yield_()\n", names=[H, P], shape="nested-loop", V=[0, 1, 3], K=12, T=2, cap=32))
+        n += 1
+        out.append(mk("NAMESINL-TERM", n, body + f"{H}(d0.Setting)\ndb.Setting = 999\n", names=[H, P], shape="nested-term", V=[0, 1, 3], K=12, T=2, cap=32))
         n += 1
     return out
 
